@@ -784,6 +784,8 @@ func (c *Ctx) execFor(env *Env, x *ast.ForStmt, st *State, label string) []*Stat
 	}
 	pos := x.Body.Lbrace + 1
 	ie := c.invEnv(env, pos, nil)
+	preLoop := st.clone()
+	ie.loopPre = preLoop
 	checkInvs := func(s *State, phase string) {
 		if spec == nil {
 			return
@@ -898,6 +900,7 @@ func (c *Ctx) execRange(env *Env, x *ast.RangeStmt, st *State, label string) []*
 	}
 	mkExtra := func(i Val) map[string]Val { return map[string]Val{"$i": i, "idx_": i, "coll_": coll} }
 	ie := c.invEnv(env, pos, mkExtra(idx))
+	preLoop := st.clone()
 	checkInvs := func(s *State, i Val, phase string) {
 		if spec == nil {
 			return
@@ -906,6 +909,7 @@ func (c *Ctx) execRange(env *Env, x *ast.RangeStmt, st *State, label string) []*
 			s.vars[keyObj] = Val{T: i.T, Ty: keyObj.Type()}
 		}
 		e2 := c.invEnv(env, pos, mkExtra(i))
+		e2.loopPre = preLoop
 		for k, inv := range spec.Invs {
 			g := e2.evalBool(inv.Expr, s)
 			c.addObl(s, fmt.Sprintf("loop%d/inv#%d/%s", n, k, phase), "inv", g, c.e.pos(x.Pos()), "invariant "+inv.Text, nil)
@@ -928,6 +932,7 @@ func (c *Ctx) execRange(env *Env, x *ast.RangeStmt, st *State, label string) []*
 	}
 	if spec != nil {
 		e2 := c.invEnv(env, pos, mkExtra(i))
+		e2.loopPre = preLoop
 		for _, inv := range spec.Invs {
 			st.assume(e2.evalBool(inv.Expr, st))
 		}
